@@ -82,16 +82,7 @@ def parseMsg (impl : String) : Option (Bool × Nat × Bytes) :=
 
 def maxPermGroups : Nat := 6
 
-/-- F7 switch. The model ports the code AS IT IS: `truncateMetadata` (trace-bin behind the cut is lost).
-    When the suggested fix (or any fix that looks at "grpc-trace-bin" a second time, after the loop) has
-    been applied to the tree under check — visible in the T4-regenerated source of the function — the
-    model of the fixed function (`truncateMetadataFixed`, proved to satisfy the whole statement) is the
-    one that is diffed. Any other change of the function shows up as a divergence. -/
-def fixApplied : Bool :=
-  (GrpcModel.Generated.truncateMetadataSrc.splitOn "\"grpc-trace-bin\"").length > 2
-
-def truncModel (h : Nat) (es : List Entry) : List Entry × Bool :=
-  if fixApplied then truncateMetadataFixed h es else truncateMetadata h es
+def truncModel (h : Nat) (es : List Entry) : List Entry × Bool := truncateMetadata h es
 
 /-- all results `Build` can produce for a header (`trunc = true`) / trailer over the map orders -/
 def buildResults (trunc : Bool) (h : Nat) (md : MD) : List (List Entry × Bool) :=
